@@ -43,10 +43,47 @@ BIN = os.path.join(ROOT, BROOT, VARIANT, "bin")
 TASGRID = os.path.join(BIN, "tasgrid")
 MIRROR = os.path.join(BIN, "cli_mirror")
 SCRATCH = os.path.join(ROOT, "out", "tmp", "cli.%d" % os.getpid())
-CLI_TIMEOUT = 12.0
+CLI_TIMEOUT = 8.0
 ENV = dict(os.environ)
-ENV["ASAN_OPTIONS"] = "detect_leaks=0:exitcode=77:abort_on_error=0:handle_abort=0:allocator_may_return_null=0"
-ENV["UBSAN_OPTIONS"] = "print_stacktrace=1:halt_on_error=1:exitcode=78"
+# reports are not symbolised by the sanitizer run-time (1-3 s per report); the few distinct frames are resolved once with addr2line
+ENV["ASAN_OPTIONS"] = "detect_leaks=0:exitcode=77:abort_on_error=0:handle_abort=0:allocator_may_return_null=0:symbolize=0"
+ENV["UBSAN_OPTIONS"] = "print_stacktrace=1:halt_on_error=1:exitcode=78:symbolize=0"
+SYM_CACHE, SYM_LOCK = {}, threading.Lock()
+FRAME = re.compile(r"#\d+ 0x[0-9a-f]+\s+(?:in \S+ )?\((\S+?)\+0x([0-9a-f]+)\)")
+
+
+def resolve(module, offsets):
+    need = [o for o in offsets if (module, o) not in SYM_CACHE]
+    if need:
+        with SYM_LOCK:
+            need = [o for o in need if (module, o) not in SYM_CACHE]
+            if need:
+                try:
+                    p = subprocess.run(["addr2line", "-f", "-C", "-e", module] + ["0x" + o for o in need], stdout=subprocess.PIPE, stderr=subprocess.DEVNULL, timeout=60)
+                    lines = p.stdout.decode("utf-8", "replace").splitlines()
+                except Exception:  # noqa
+                    lines = []
+                for i, o in enumerate(need):
+                    SYM_CACHE[(module, o)] = lines[2 * i] if 2 * i < len(lines) else "?"
+    return [SYM_CACHE.get((module, o), "?") for o in offsets]
+
+
+def sanitizer_class(err):
+    kind, fn = "unknown", "?"
+    m = re.search(r"AddressSanitizer: ([\w-]+)", err)
+    if m:
+        kind = m.group(1)
+    else:
+        m = re.search(r"runtime error: (.{0,60})", err)
+        if m:
+            kind = "ub:" + re.sub(r"0x[0-9a-f]+|\d+", "N", m.group(1)).strip()
+    fr = [(mod, off) for mod, off in FRAME.findall(err) if mod.endswith("/tasgrid") or mod.endswith("/cli_mirror")][:10]
+    if fr:
+        for name in resolve(fr[0][0], [o for _, o in fr]):
+            if "TasGrid" in name or "Tasgrid" in name or "TasDREAM" in name:
+                fn = re.sub(r"<[^<>]*>", "", name.split("(")[0]).replace("void ", "").strip()
+                break
+    return "%s in %s" % (kind, fn)
 
 
 def past_deadline():
@@ -133,20 +170,7 @@ NUMRE = re.compile(r"[-+]?(?:\d+\.?\d*(?:[eE][-+]?\d+)?|nan|inf)")
 # ------------------------------------------------------------------ running the two sides
 def classify_cli(rc, err):
     if "AddressSanitizer" in err or "runtime error:" in err or "LeakSanitizer" in err:
-        kind, fn = "unknown", "?"
-        m = re.search(r"AddressSanitizer: ([\w-]+)", err)
-        if m:
-            kind = m.group(1)
-        else:
-            m = re.search(r"runtime error: (.{0,60})", err)
-            if m:
-                kind = "ub:" + re.sub(r"0x[0-9a-f]+|\d+", "N", m.group(1)).strip()
-        for m in re.finditer(r"#\d+ 0x[0-9a-f]+ in (\S+)", err):
-            f = m.group(1)
-            if "TasGrid" in f or "Tasgrid" in f or "TasDREAM" in f:
-                fn = f.split("(")[0].split("<")[0]
-                break
-        return "sanitizer:%s in %s" % (kind, fn)
+        return "sanitizer:" + sanitizer_class(err)
     if rc == 0:
         return "ok"
     if rc == -6 and "terminate called" in err:
@@ -171,7 +195,7 @@ class MirrorServer:
         self.p = None
 
     def start(self):
-        self.p = subprocess.Popen([MIRROR, "--server", "--timeout", "12"], stdin=subprocess.PIPE, stdout=subprocess.PIPE, stderr=subprocess.DEVNULL, env=ENV)
+        self.p = subprocess.Popen([MIRROR, "--server", "--timeout", "8"], stdin=subprocess.PIPE, stdout=subprocess.PIPE, stderr=subprocess.DEVNULL, env=ENV)
 
     def ask(self, taskpath):
         for attempt in range(2):
@@ -367,19 +391,15 @@ def steps_for(info, cand, tier):
                     [["-levellimitsfile", "iv", "limits", 1, d, [3, 2][:d]]], of=True, writes=True, out="matrix"))
         S.append(mk("refinesurp+fds+limits", "-rs", "refinesurp", [["-tol", "d", "tol", "0.001"], ["-rt", "s", "reftype", "fds"]] + ro,
                     [["-lf", "iv", "limits", 1, d, [3, 3][:d]]], of=True, writes=True, out="matrix"))
-        S.append(mk("refinesurp+parents", "-rs", "refinesurp", [["-tol", "d", "tol", "0.05"], ["-rt", "s", "reftype", "parents"]] + ro_default,
-                    of=True, writes=True, out="matrix"))
         S.append(mk("refinesurp+scale", "-rs", "refinesurp", [["-tol", "d", "tol", "0.01"], ["-rt", "s", "reftype", "classic"]] + ro,
                     [["-valsfile", "m", "scale", npnt, 1, [1.0 + 0.5 * (i % 3) for i in range(npnt)]]], of=True, writes=True, out="matrix"))
         S.append(mk("getconstructpnts+aniso", "-gcp", "getconstructpnts", [["-tt", "s", "type", "level"], ["-tol", "d", "tol", "0.01"], ["-rt", "s", "reftype", "classic"]],
                     [["-af", "iv", "aniso", 1, d, [1, 2][:d]], ["-lf", "iv", "limits", 1, d, [3, 3][:d]]], of=True, writes=True, out="matrix"))
         S.append(mk("getpoly+q", "-getpoly", "getpoly", [["-tt", "s", "type", "qptotal"]], of=True, out="matrix"))
-        S.append(mk("getpoints+print", "-gp", "getpoints", out="matrix", pr=True))
         S.append(mk("evaluate+print", "-e", "evaluate", mats=[xm], out="matrix", pr=True))
         S.append(mk("integrate+print", "-i", "integrate", out="matrix", pr=True))
         S.append(mk("getcoefficients+print", "-gc", "getcoefficients", out="matrix", pr=True))
         S.append(mk("evaluate~xfmt", "-e", "evaluate", mats=[xm], of=True, out="matrix", matfmt="other"))
-        S.append(mk("setcoefficients~xfmt", "-setcoefficients", "setcoefficients", mats=[["-vf", "m", "vals", npnt, ccols, coef]], writes=True, matfmt="other"))
     return S
 
 
@@ -419,7 +439,6 @@ def make_lattice(tier):
         L.append(g("makeglobal+conformal", "-mg", "makeglobal", sc(1, 2, type="level", rule="fejer2") + [["-conformaltype", "s", "ctype", "asin"]],
                    [["-conformalfile", "iv", "conformal", 1, 2, [4, 4]]]))
         L.append(g("makeglobal", "-mg", "makeglobal", sc(1, 2, type="level", rule="chebyshev")))
-        L.append(g("makeglobal", "-mg", "makeglobal", sc(1, 2, type="qphyperbolic", rule="gauss-legendre")))
         L.append(g("makesequence", "-ms", "makesequence", sc(1, 2, type="level", rule="min-delta"), [ll([1, 2])]))
         L.append(g("makesequence+out0", "-ms", "makesequence", sc(0, 2, type="level", rule="leja")))
         L.append(g("makelocalpoly", "-mp", "makelocalpoly", sc(1, 2, order=-1, rule="localp-zero")))
@@ -428,7 +447,6 @@ def make_lattice(tier):
         L.append(g("makewavelet", "-mw", "makewavelet", sc(2, 1, order=3), [TR]))
         L.append(g("makewavelet+out0", "-mw", "makewavelet", sc(0, 1, order=1)))
         L.append(g("makefourier+out0", "-mf", "makefourier", sc(0, 1, type="level")))
-        L.append(g("makefourier", "-mf", "makefourier", sc(1, 2, type="level"), [ll([1, 2])]))
     return L
 
 
@@ -458,7 +476,7 @@ def other(fmt):
     return "binary" if fmt == "ascii" else "ascii"
 
 
-def execute(step, fmt, gin_path, wdir, tag, want_cand=True, keep=False):
+def execute(step, fmt, gin_path, wdir, tag, want_cand=True, keep=False, fam_in=None):
     """runs tasgrid and the mirror for one step; gin_path None for make commands. Returns a result dict."""
     d = os.path.join(wdir, tag)
     shutil.rmtree(d, ignore_errors=True)
@@ -472,6 +490,7 @@ def execute(step, fmt, gin_path, wdir, tag, want_cand=True, keep=False):
     if gin_path is not None:
         shutil.copyfile(gin_path, gfile)
         before = slurp(gfile)
+        os.utime(gfile, ns=(10 ** 18, 10 ** 18))
         task.append("s gin " + gin_path)
     if not is_mq or step.get("gf"):
         argv += ["-gridfile", gfile]
@@ -507,7 +526,7 @@ def execute(step, fmt, gin_path, wdir, tag, want_cand=True, keep=False):
     after = slurp(gfile)
     V = res["viol"]
     C, M = c["cls"], m.get("status")
-    fam = (m.get("g") or {}).get("family")
+    fam = (m.get("g") or {}).get("family") or fam_in
     res["family"] = fam
     digest_parts = [C, M or ""]
 
@@ -518,15 +537,16 @@ def execute(step, fmt, gin_path, wdir, tag, want_cand=True, keep=False):
     if M == "error" or M is None:
         res["harness_error"] = "mirror: " + str(m.get("what"))
     elif crashy and M == "crash":
-        mc = str(m.get("class") or m.get("kind"))
+        mc = sanitizer_class(m.get("stderr", "")) if m.get("kind") == "sanitizer" else str(m.get("kind"))
         res["libcrash"] = True
         v("library-crash:" + (C.split(" in ")[0] if C.startswith("sanitizer") else C).replace(" ", "_"),
           "tasgrid AND the documented API sequence crash: tasgrid %s, API %s (defect of the library below both, not of the tool); stderr tail: %s" % (C, mc, c["err"][-300:]))
     elif crashy:
         v(C.replace(" ", "_"), "tasgrid %s; mirror status=%s %s; stderr tail: %s" % (C, M, m.get("what", m.get("class", "")), c["err"][-400:]))
     elif M == "crash":
-        v("api-crash:" + str(m.get("class", m.get("kind"))).split(" in ")[0].replace(" ", "_") + ":cli-" + C,
-          "the documented API sequence crashes (%s) while tasgrid ends with %s; %s" % (m.get("class", m.get("kind")), C, m.get("stderr", "")[:300]))
+        mc = sanitizer_class(m.get("stderr", "")) if m.get("kind") == "sanitizer" else str(m.get("kind"))
+        v("api-crash:" + mc.split(" in ")[0].replace(" ", "_") + ":cli-" + C,
+          "the documented API sequence crashes (%s) while tasgrid ends with %s; %s" % (mc, C, m.get("stderr", "")[:300]))
     elif M == "ok":
         if C != "ok":
             v("cli-fails-api-succeeds", "tasgrid: %s rc=%s stderr=%s stdout=%s" % (C, c["rc"], c["err"][-300:].strip(), c["out"][:200].strip()))
@@ -538,13 +558,18 @@ def execute(step, fmt, gin_path, wdir, tag, want_cand=True, keep=False):
                     v("grid-missing", "tasgrid did not write the grid file")
                 elif want != after:
                     v("grid-differs:" + fmt, "grid file written by tasgrid differs from write() of the API mirror (%d vs %d bytes); cli g: %s" % (len(after), len(want or b""), describe_file_diff(after, want)))
+                elif not m.get("extras"):
+                    res["unexpandable"] = str(m.get("extras_crash"))   # the state cannot be keyed/described: write() in the other format or a getter crashes
+                    digest_parts.append(sha(after))
                 else:
                     kb, ka = slurp(mg + ".bin"), slurp(mg + ".asc")
                     res["new"] = dict(key=sha(kb) + sha(ka), info=m.get("g"), cand=m.get("cand", []), bytes=after)
                     digest_parts.append(res["new"]["key"])
             elif not step["writes"]:
                 if before is not None and after != before:
-                    v("readonly-command-modified-grid", "command documented as read-only rewrote the grid file")
+                    v("readonly-command-modified-grid", "command documented as read-only changed the grid file")
+                elif before is not None and os.stat(gfile).st_mtime_ns != 10 ** 18:
+                    v("readonly-command-rewrote-grid", "command documented as read-only (\"lGrid is NOT modified by this command\") rewrote the grid file in the format selected by -ascii")
             # result matrix
             if step["of"] and step["out"] in ("matrix", "sparse"):
                 if not m.get("wrote_mat"):
@@ -580,7 +605,7 @@ def execute(step, fmt, gin_path, wdir, tag, want_cand=True, keep=False):
                     except ValueError:
                         pass
                 flat = [float(x) if not isinstance(x, str) else float(x) for x in m.get("flat", [])]
-                if len(nums) < 2 or int(nums[0]) != m.get("mat_rows"):
+                if len(nums) < 2 or (int(nums[0]) != m.get("mat_rows") and not (m.get("vec") and sorted(int(x) for x in nums[:2]) == sorted([m.get("mat_rows"), m.get("mat_cols")]))):
                     v("print-shape", "-print header %s, API rows %s" % (nums[:2], m.get("mat_rows")))
                 else:
                     df = compare_values(nums[2:], flat)
@@ -694,7 +719,7 @@ def replay(vfile):
             for i, st in enumerate(steps):
                 last = (i == len(steps) - 1)
                 if last:
-                    res = execute(st, fmt, cur, ctx.dir, "replay%d" % i, keep=True)
+                    res = execute(st, fmt, cur, ctx.dir, "replay%d" % i, keep=True, fam_in=case.get("family"))
                     c2 = dict(case)
                     c2["family"] = case.get("family")
                     sigs = book.record("replay", st, res, case)
@@ -953,10 +978,10 @@ def main():
             sk, st, f = tasks[i]
             ctx = worker_ctx()
             ctx.n += 1
-            return execute(st, f, states[sk]["path"] if sk else None, ctx.dir, "t%d" % (ctx.n % 4))
+            return execute(st, f, states[sk]["path"] if sk else None, ctx.dir, "t%d" % (ctx.n % 4), fam_in=(states[sk]["info"]["family"] if sk else None))
         nxt = []
         ndone = 0
-        divergent = 0
+        divergent = unexp = 0
         for i, res in enumerate(pool.map(run_t, range(len(tasks)))):
             if res is None:
                 continue
@@ -967,6 +992,8 @@ def main():
             book.record("depth-%d" % depth, st, res, case)
             if any(k.startswith("grid-differs") for k, _ in res["viol"]):
                 divergent += 1
+            if res.get("unexpandable"):
+                unexp += 1
             nw = res.get("new")
             if nw is not None:
                 nk = (f, nw["key"])
@@ -983,7 +1010,7 @@ def main():
             fams[states[nk]["info"]["family"]] = fams.get(states[nk]["info"]["family"], 0) + 1
         emit({"t": "unit", "unit": "depth-%d" % depth, "states": len(nxt), "transitions": book.transitions - tr0, "execs": book.transitions - tr0,
               "evals": book.transitions - tr0, "distinct": len(book.distinct) - dist0, "complete": complete, "planned": len(tasks),
-              "divergent_successors_not_expanded": divergent, "new_states_by_family": fams, "wall": round(time.time() - t0, 2)})
+              "divergent_successors_not_expanded": divergent, "successors_not_expanded_because_write_or_getter_crashes_in_the_api": unexp, "new_states_by_family": fams, "wall": round(time.time() - t0, 2)})
         if nxt:
             sm = states[nxt[len(nxt) // 2]]
             emit({"t": "sample", "case": {"fmt": nxt[len(nxt) // 2][0], "script": [[s["cli"]] + [x for sc in s["scal"] for x in sc[0:1] + sc[3:4]] + [m[0] for m in s["mats"]] for s in sm["script"]],
